@@ -51,33 +51,45 @@ Variables G G' : grammar.
 Variable extras : bool.
 Variable uprop : name -> option (N -> bool).
 Variable w : list byte.
+Variable Q : str -> Prop.
 Variable Inv : state_inv.
 Variable F : rule -> option rule.
 Hypothesis Fsig : forall r r', F r = Some r' -> rname r' = rname r /\ rty r' = rty r.
 Hypothesis HF : map_rules F G = Some G'.
-Hypothesis HP : preserved G extras uprop w Inv.
-Hypothesis HP' : preserved G' extras uprop w Inv.
+Hypothesis HP : preserved G extras uprop w Q Inv.
+Hypothesis HP' : preserved G' extras uprop w Q Inv.
+Hypothesis HQ : forall r, In r G -> Forall Q (estrs (rexpr r)).
+Hypothesis HQ' : forall r, In r G' -> Forall Q (estrs (rexpr r)).
 Hypothesis LawG : forall r r' a, In r G -> F r = Some r' -> body_atom (rty r) a -> equiv G extras uprop w Inv a (rexpr r) (rexpr r').
 Hypothesis LawG' : forall r r' a, In r G -> F r = Some r' -> body_atom (rty r) a -> equiv G' extras uprop w Inv a (rexpr r) (rexpr r').
 
-Theorem pass_forward a emit j p sg res : bs G extras uprop w a emit j p sg res -> Inv p sg -> bs G' extras uprop w a emit j p sg res.
+Lemma find_rule_In g n r : find_rule g n = Some r -> In r g.
+Proof.
+  induction g as [|x g IH]; cbn [find_rule]; [discriminate|].
+  destruct (find_rule g n) as [y|]; [intros [= <-]; right; now apply IH|].
+  destruct (str_eqb (rname x) n); [intros [= <-]; now left|discriminate].
+Qed.
+
+Theorem pass_forward a emit j p sg res : bs G extras uprop w a emit j p sg res -> jvalid Q j -> Inv p sg -> bs G' extras uprop w a emit j p sg res.
 Proof.
   pose proof (map_rules_F2 _ _ _ HF) as F2.
-  apply transfer; auto.
+  refine (transfer G G' extras uprop w Q Inv _ _ HP _ _ a emit j p sg res).
   - intros n. pose proof (F2_find F Fsig _ _ F2 n) as X. destruct (find_rule G n), (find_rule G' n); auto.
     destruct X as [X _]. destruct (Fsig _ _ X) as [_ T]. now rewrite T.
   - intros n. symmetry. now apply (F2_rule_id F Fsig).
+  - intros n r Fr. apply HQ. eapply find_rule_In; eauto.
   - intros n r1 r2 a0 emit0 F1 F2'. pose proof (F2_find F Fsig _ _ F2 n) as X. rewrite F1, F2' in X. destruct X as [X Y].
     apply (LawG' r1 r2); auto. apply rule_mode_body_atom.
 Qed.
 
-Theorem pass_backward a emit j p sg res : bs G' extras uprop w a emit j p sg res -> Inv p sg -> bs G extras uprop w a emit j p sg res.
+Theorem pass_backward a emit j p sg res : bs G' extras uprop w a emit j p sg res -> jvalid Q j -> Inv p sg -> bs G extras uprop w a emit j p sg res.
 Proof.
   pose proof (map_rules_F2 _ _ _ HF) as F2.
-  apply transfer; auto.
+  refine (transfer G' G extras uprop w Q Inv _ _ HP' _ _ a emit j p sg res).
   - intros n. pose proof (F2_find F Fsig _ _ F2 n) as X. destruct (find_rule G n), (find_rule G' n); auto.
     destruct X as [X _]. destruct (Fsig _ _ X) as [_ T]. now rewrite T.
   - intros n. now apply (F2_rule_id F Fsig).
+  - intros n r Fr. apply HQ'. eapply find_rule_In; eauto.
   - intros n r1 r2 a0 emit0 F1 F2'. pose proof (F2_find F Fsig _ _ F2 n) as X. rewrite F1, F2' in X. destruct X as [X Y].
     destruct (Fsig _ _ X) as [_ T]. rewrite T.
     apply (LawG r2 r1); auto. apply rule_mode_body_atom.
@@ -90,5 +102,9 @@ Proof. unfold with_expr. destruct o; [|discriminate]. intros [= <-]. auto. Qed.
 Lemma with_expr_inv r o r' : with_expr r o = Some r' -> o = Some (rexpr r').
 Proof. unfold with_expr. destruct o; [|discriminate]. intros [= <-]. reflexivity. Qed.
 
-Lemma preserved_True G extras uprop w : preserved G extras uprop w (fun _ _ => True).
-Proof. intros a emit j p sg p' sg' f _ _. exact I. Qed.
+Lemma preserved_True G extras uprop w Q : preserved G extras uprop w Q (fun _ _ => True).
+Proof. intros a emit j p sg p' sg' f _ _ _. exact I. Qed.
+Lemma Forall_True' {A} (l : list A) : Forall (fun _ => True) l.
+Proof. induction l; constructor; auto. Qed.
+Lemma jvalid_True j : jvalid (fun _ => True) j.
+Proof. destruct j; cbn; auto using Forall_True'. Qed.
